@@ -234,26 +234,68 @@ def rule_helpers(rep: Report, repo: Repo):
 
     # -- _group_close_energies: a partition of the indices into groups closed under |E_a - E_b| <= atol ---------------
     f = repo.find(f"{MOD}::_group_close_energies", R)
-    real = [n for n in own_nodes(f) if isinstance(n, ast.If) and norm(n.test) == "np.isrealobj(energies)"]
-    ok = False
-    if len(real) == 1:
-        env = run_block(real[0].body)
-        r = [x for x in real[0].body if isinstance(x, ast.Return)]
-        ok = len(r) == 1 and rtext(r[0].value, env) == "np.split(np.argsort(energies), np.nonzero(np.diff(energies[np.argsort(energies)]) > atol)[0] + 1)"
-    rep.check(ok, R, f"{MOD}::_group_close_energies [real] sorted energies are split where the gap exceeds atol", "", loc(f))
-    q = [n for n in ast.walk(f) if isinstance(n, ast.Call) and isinstance(n.func, ast.Attribute) and n.func.attr == "query_pairs"]
-    ok = len(q) == 1 and {k.arg: norm(k.value) for k in q[0].keywords}.get("r") == "atol"
-    cc = [n for n in ast.walk(f) if isinstance(n, ast.Call) and (call_name(n) or "").endswith("connected_components")]
-    last = _returns(f)[-1]
-    ok = ok and len(cc) == 1 and norm(last.value) == "[np.flatnonzero(labels == label) for label in range(n_components)]"
-    rep.check(ok, R, f"{MOD}::_group_close_energies [complex] groups are the connected components of the |E_a - E_b| <= atol graph", "", loc(f))
+    res_real, res_cplx = [], []
+    for real in (True, False):
+        def atom(n, real=real):
+            t = norm(canon(n))
+            if t == "np.isrealobj(energies)":
+                return real
+            if t == "np.iscomplexobj(energies)":
+                return not real
+            if t in ("len(energies) == 0", "0 == len(energies)", "not len(energies)"):
+                return False
+            if t == "len(energies)":
+                return True
+            return None
+        for o in outcomes(f.body, None, env={}, atom=atom, expand=False):
+            if o.kind != "return":
+                raise AnalysisError(R, "_group_close_energies: path without return")
+            (res_real if real else res_cplx).append(o)
+    ok = len(res_real) == 1 and norm(res_real[0].value) == \
+        "np.split(np.argsort(energies), np.nonzero(np.diff(energies[np.argsort(energies)]) > atol)[0] + 1)"
+    rep.check(ok, R, f"{MOD}::_group_close_energies [real] sorted energies are split where the gap exceeds atol",
+              norm(res_real[0].value)[:140] if res_real else "", loc(f))
+    # complex energies: pairs within atol (KD tree on (re, im)) -> symmetric graph -> connected components -> one index array per label
+    ok = bool(res_cplx)
+    detail = ""
+    for o in res_cplx:
+        v = o.value
+        good = isinstance(v, ast.ListComp) and len(v.generators) == 1 and isinstance(v.elt, ast.Call) and call_name(v.elt) == "np.flatnonzero"
+        if good:
+            g_ = v.generators[0]
+            cmp_ = v.elt.args[0]
+            cc_call = "sparse.csgraph.connected_components("
+            lab = norm(cmp_.left) if isinstance(cmp_, ast.Compare) else ""
+            rng = norm(g_.iter)
+            # labels / n_components come from one connected_components(graph, directed=False) call (resolved by position)
+            good = isinstance(cmp_, ast.Compare) and isinstance(cmp_.ops[0], ast.Eq) and norm(cmp_.comparators[0]) == norm(g_.target) \
+                and lab.startswith(cc_call) and lab.endswith(", directed=False)[1]") and rng == "range(" + lab[:-3] + "[0])"
+            graph = lab[len(cc_call):-len(", directed=False)[1]")]
+            pairs = "np.array(list(KDTree(np.column_stack((energies.real, energies.imag))).query_pairs(r=atol)), dtype=int)"
+            sym = (f"sparse.coo_array((np.ones(len(np.concatenate(({pairs}[:, 0], {pairs}[:, 1]))), dtype=bool), "
+                   f"(np.concatenate(({pairs}[:, 0], {pairs}[:, 1])), np.concatenate(({pairs}[:, 1], {pairs}[:, 0])))), shape=(len(energies), len(energies)))")
+            empty = "sparse.coo_array((len(energies), len(energies)), dtype=bool)"
+            good = good and graph in (sym, empty)
+            detail = graph[:100]
+        ok = ok and bool(good)
+    rep.check(ok, R, f"{MOD}::_group_close_energies [complex] groups are the connected components of the |E_a - E_b| <= atol graph", detail, loc(f))
 
-    # -- linalg.aslinearoperator / is_diagonal ------------------------------------------------------------------------------
+    # -- linalg.aslinearoperator: the sentinels pass through, everything else is wrapped -------------------------------
     f = repo.find("linalg::aslinearoperator", R)
-    first = [s for s in f.body if isinstance(s, ast.If)]
-    ok = len(first) == 1 and norm(first[0].test) in ("A is zero or A is one", "A is one or A is zero") and norm(first[0].body[0]) == "return A" \
-        and norm(f.body[-1]) == "return scipy_aslinearoperator(A)"
-    rep.check(ok, R, "linalg::aslinearoperator passes the zero / one sentinels through unchanged", "", repo.loc("linalg", f))
+    table = {}
+    for z in (False, True):
+        for o1 in (False, True):
+            if z and o1:
+                continue
+            def atom(n, z=z, o1=o1):
+                t = norm(canon(n))
+                return {"A is zero": z, "A is not zero": not z, "A is one": o1, "A is not one": not o1}.get(t)
+            outs = [o for o in outcomes(f.body, None, env={}, atom=atom, expand=False)]
+            if len(outs) != 1 or outs[0].kind != "return":
+                raise AnalysisError(R, "aslinearoperator: condition not understood")
+            table[(z, o1)] = norm(outs[0].value)
+    ok = table == {(False, False): "scipy_aslinearoperator(A)", (True, False): "A", (False, True): "A"}
+    rep.check(ok, R, "linalg::aslinearoperator passes the zero / one sentinels through unchanged", str(table), repo.loc("linalg", f))
 
     # -- second_quantization.apply_mask_to_operator + NumberOrderedForm.filter_terms: keep / discard are complementary ------
     f = repo.find("second_quantization::apply_mask_to_operator", R)
